@@ -37,7 +37,7 @@ ASSUMPTIONS = [
     "'the end marker' = EI followed by a byte for which bytes.isspace() is true; inline data is written as ID<space>data<LF>EI<LF> and does not end in CR",
     "export formats limited to those that do not need Pillow (DCT pass-through, 1-bit / 8-bit gray / 8-bit RGB bitmaps)",
 ]
-PROBES = ["inline image ending at the ASCII85 marker", "inline image", "xobject image", "gray8", "rgb8", "1bit", "dct", "filter chain", "unfiltered", "row padding needed", "boundary placed in inline markers", "contents split after image", "inline data contains EI", "preexisting export name", "two images same name", "bmp exported", "jpg exported"]
+PROBES = ["same XObject drawn twice", "inline image ending at the ASCII85 marker", "inline image", "xobject image", "gray8", "rgb8", "1bit", "dct", "filter chain", "unfiltered", "row padding needed", "boundary placed in inline markers", "contents split after image", "inline data contains EI", "preexisting export name", "two images same name", "bmp exported", "jpg exported"]
 TIERS = {
     "quick": {"batches": 16, "runs": 450, "budget_s": 50},
     "thorough": {"batches": 128, "runs": 500, "budget_s": 1200},
@@ -176,7 +176,12 @@ def build_document(t, ctx, images, page_of, with_images=True):
             xobjs[pg][nm] = alloc(st)
             seg = place + name_bytes(nm) + b" Do Q "
             names.append(nm.decode("latin-1"))
+            if im.get("twice"):
+                # the same XObject painted a second time: one more image item and one more exported file
+                seg += b"q %d 0 0 %d %d %d cm " % (im["w"], im["h"], 20 + 45 * i, 300) + name_bytes(nm) + b" Do Q "
         text = b"BT /F1 9 Tf %d %d Td (after%d) Tj ET\n" % (20 + 45 * i, 480, i)
+        if im.get("notext"):
+            text = b""  # the next image follows directly
         parts[pg].append(seg)
         parts[pg].append(text)
         pos[pg] += len(seg) + len(text)
@@ -272,6 +277,17 @@ def run(tape, ctx, item=None):
         else:
             im["inline"] = False
         images.append(im)
+    for im in images:
+        if not im["inline"] and t.coin(20, 100, "img.twice"):
+            im["twice"] = True
+            ctx.probe("same XObject drawn twice")
+        if t.coin(20, 100, "img.notext"):
+            im["notext"] = True
+    shown = []
+    for im in images:
+        shown.append(im)
+        if im.get("twice"):
+            shown.append(im)
     page_of = [0] + [t.draw(2, "page.of") for _ in images[1:]]
     if 1 in page_of:
         page_of = [p if 0 in page_of else 0 for p in page_of]
@@ -308,10 +324,10 @@ def run(tape, ctx, item=None):
         cfg = "chunk=%s images=%s" % (pdesc, [(im["kind"], "inline" if im["inline"] else "xobject", im["w"], im["h"], im["chain"]) for im in images])
         scen.append(pdesc)
         got = [x for p_ in pages for x in items_of(p_, L.LTImage)]
-        if len(got) != len(images):
-            devs.append(Dev("C18:image-count", "%d LTImage items, document has %d images; %s" % (len(got), len(images), cfg)))
+        if len(got) != len(shown):
+            devs.append(Dev("C18:image-count", "%d LTImage items, document shows %d images; %s" % (len(got), len(shown), cfg)))
         else:
-            for i, (im, lt) in enumerate(zip(images, got)):
+            for i, (im, lt) in enumerate(zip(shown, got)):
                 tag = "inline" if im["inline"] else "xobject"
                 try:
                     d = lt.stream.get_data()
@@ -364,8 +380,8 @@ def run(tape, ctx, item=None):
                     devs.append(Dev("C18:export:overwrote-existing", "%s changed; %s" % (os.path.basename(p), cfg)))
         if not res["err"]:
             new = sorted(os.path.realpath(p) for p in set(writes))
-            if len(new) != len(images):
-                devs.append(Dev("C18:export:file-count", "%d files written (%s) for %d images; %s" % (len(new), [os.path.basename(p) for p in new], len(images), cfg)))
+            if len(new) != len(shown):
+                devs.append(Dev("C18:export:file-count", "%d files written (%s) for %d images shown; %s" % (len(new), [os.path.basename(p) for p in new], len(shown), cfg)))
             else:
                 # files are written in showing order
                 order = []
@@ -373,7 +389,7 @@ def run(tape, ctx, item=None):
                     rp = os.path.realpath(p)
                     if rp not in order:
                         order.append(rp)
-                for i, (im, p) in enumerate(zip(images, order)):
+                for i, (im, p) in enumerate(zip(shown, order)):
                     sc.check(p)
                     with open(p, "rb") as f:
                         blob = f.read()
